@@ -15,6 +15,7 @@ package c16
 import (
 	"fmt"
 	"os"
+	"slices"
 	"strings"
 
 	"go.sia.tech/core/types"
@@ -224,6 +225,11 @@ func Run(r *vh.Run) {
 				// every fault once, in seeded order; in the thorough tier failed attempts are
 				// repeated back to back to look for leaks that only show up on repetition
 				order := rng.Perm(len(fs))
+				// the mid-exchange mining steps come first: the world is young, so the next power of
+				// two of the accumulator is a few dozen blocks away (the pool rebases over <= 144)
+				slices.SortStableFunc(order, func(a, b int) int {
+					return b2i(fs[b].kind == "midmine") - b2i(fs[a].kind == "midmine")
+				})
 				for _, k := range order {
 					f := fs[k]
 					if r.Quick() && cf.basis != basisSame && f.kind == "corrupt" && k%3 != 0 {
